@@ -669,6 +669,8 @@ class Fn:
         """guards(b) normalised to atoms (see atom_of)"""
         out = []
         for (s, cond, val) in self.guards(b):
+            if self.term(s)['k'] == 'assert':
+                continue  # compiler-inserted overflow / bounds / division checks carry no program logic
             a = atom_of(cond, val)
             if a is not None:
                 out.append((s, a))
